@@ -80,6 +80,13 @@ M = [
  ("C17", "forward-to-all-peers", "plugin/federation/hooks.go", "\tfor nodeName := range nonShared {\n\t\tif _, ok := sent[nodeName]; ok {\n\t\t\tcontinue\n\t\t}\n\t\tif p, ok := f.peers[nodeName]; ok {", "\tfor nodeName := range f.peers {\n\t\tif _, ok := sent[nodeName]; ok {\n\t\t\tcontinue\n\t\t}\n\t\tif p, ok := f.peers[nodeName]; ok {"),
  ("C17", "retained-not-cleared-on-peer", "plugin/federation/federation.go", "\t\t\tif len(pubMsg.Payload) == 0 {\n\t\t\t\tf.retainedStore.Remove(pubMsg.Topic)\n\t\t\t} else {", "\t\t\tif false {\n\t\t\t\tf.retainedStore.Remove(pubMsg.Topic)\n\t\t\t} else {"),
  ("C17", "retained-only-to-matching-peers", "plugin/federation/hooks.go", "\tif msg.Retained {\n\t\teventMsg := messageToEvent(msg)\n\t\tfor _, v := range f.peers {", "\tif msg.Retained && len(msg.Payload) == 0 {\n\t\teventMsg := messageToEvent(msg)\n\t\tfor _, v := range f.peers {"),
+ ("C05", "sweeper-never-expires", "server/server.go", "\t\tif now.After(expiredTime) {\n\t\t\tzaplog.Info(\"session expired\"", "\t\tif false && now.After(expiredTime) {\n\t\t\tzaplog.Info(\"session expired\""),
+ ("C05", "sweeper-expires-everything", "server/server.go", "\t\tif now.After(expiredTime) {\n\t\t\tzaplog.Info(\"session expired\"", "\t\tif true || now.After(expiredTime) {\n\t\t\tzaplog.Info(\"session expired\""),
+ ("C11", "expired-member-selected", "server/server.go", "\t\t\tif t, ok := d.srv.offlineClients[m.clientID]; ok && d.now.After(t) {", "\t\t\tif t, ok := d.srv.offlineClients[m.clientID]; false && ok && d.now.After(t) {"),
+ ("C12", "retransmission-expiry-stale", "server/client.go", "\t\t\tclient.write(client.publishWithRemainingExpiry(m.Message, v.At, time.Now()))", "\t\t\tclient.write(gmqtt.MessageToPublish(m.Message, client.version))"),
+ ("C14", "auth-continue-not-signalled", "server/client.go", "\t\t\t\tcase client.authContinue <- struct{}{}:\n", "\t\t\t\tcase client.authContinue <- struct{}{}:\n\t\t\t\t\t<-client.authContinue\n"),
+ ("C17", "will-ignores-iteration-options", "server/server.go", "\tsrv.deliverMessage(clientID, req.Message, req.IterationOptions)", "\tsrv.deliverMessage(clientID, req.Message, defaultIterateOptions(req.Message.Topic))"),
+ ("C20", "expired-counted-as-normal", "server/stats.go", "\tcase ExpiredTermination:\n\t\ti = &s.totalStats.ConnectionStats.SessionTerminated.Expired", "\tcase ExpiredTermination:\n\t\ti = &s.totalStats.ConnectionStats.SessionTerminated.Normal"),
 ]
 
 
